@@ -45,6 +45,23 @@ Example C35_nonvacuous :
   /\ eval_query ex_graph ex_query = ErrT.
 Proof. vm_compute. repeat split. Qed.
 
+(* ---- parameters as the SKIP / LIMIT counts of the final RETURN: a parameter there must be
+   bound to a non-negative integer, anything else is an error (on both sides) ---- *)
+Theorem C35_subst_counts : forall cf g pe w,
+  eval_wquery_cfg cf g pe w = eval_wquery_cfg cf g [] (inline_wquery pe w).
+Proof. exact subst_wquery. Qed.
+
+(* MATCH (n) RETURN id(n) ORDER BY id(n) SKIP $0 LIMIT $1 with $0 = 1, $1 = 1: the second node;
+   with $1 = 'a' an error, inlined or not *)
+Example C35_nonvacuous_counts :
+  let w := WQ (Q [SQ [CMatch false [(NP (Some 1) [] [], [])] None]
+                     (PJ false [(IExpr (EFn FId [EVar 1]), 100)] [(EVar 100, true)] None None)] false)
+              (Some (CPar 0)) (Some (CPar 1)) in
+  eval_wquery_cfg ref_cfg ex_graph [(0, VInt 1); (1, VInt 1)] w = Ok [[VInt 2]]
+  /\ eval_wquery_cfg ref_cfg ex_graph [] (inline_wquery [(0, VInt 1); (1, VInt 1)] w) = Ok [[VInt 2]]
+  /\ eval_wquery_cfg ref_cfg ex_graph [(0, VInt 1); (1, VStr [97])] w = ErrT.
+Proof. vm_compute. repeat split. Qed.
+
 (* ---- write statements (CREATE / MERGE / SET with parameters as property values), on the write
    semantics of coq/model/CypherWrite.v: the same result and the same effect on the graph ---- *)
 Theorem C35_subst_stmt : forall wc cf pe g s,
@@ -85,6 +102,7 @@ Example C35_known_witness :
      end.
 Proof. vm_compute. repeat split. Qed.
 
+Print Assumptions C35_subst_counts.
 Print Assumptions C35_subst_stmt.
 Print Assumptions C35_subst_stmt_reference.
 Print Assumptions C35_subst.
